@@ -42,6 +42,15 @@ def gen_item(rng, thorough=False):
     if rng.random() < 0.004:
         spec = ["cyc", rng.randint(0, 3)]
     mut = G.mutate(rng, spec)
+    if rng.random() < 0.006:
+        # a large 2-d array (more elements than any chunk / buffer size a serializer is likely to use): the variants build it
+        # C- or Fortran-ordered (equal values), the mutation is the transposed view of the same buffer (other values)
+        r, c = rng.choice([(100, 100), (96, 128), (130, 70)])
+        dt = rng.choice(["int64", "float64", "int32"])
+        k = rng.randrange(1, 997)
+        vals = [(i * 7919 + k) % 1009 for i in range(r * c)]
+        spec = ["nd", dt, [r, c], vals]
+        mut = ("np-layout", ["ndTT", dt, [r, c], vals], ["nd", "ndTT"])
     other = G.gen_value(rng, depth=2)
     return {"spec": spec, "mut": mut, "other": other, "variants": [rng.randrange(1, 10**6) for _ in range(3)]}
 
